@@ -314,6 +314,13 @@ func getPrimaryKey(index *index, k string) (string, bool) {
 	return pk, ok
 }
 
+// HasIndex reports whether the table has a secondary index with the given name
+func (t *Table) HasIndex(name string) bool {
+	_, ok := t.Indexes[name]
+
+	return ok
+}
+
 func (t *Table) fetchQueryData(input QueryInput) (*index, []string) {
 	if input.Index != "" {
 		i := t.Indexes[input.Index]
